@@ -131,12 +131,24 @@ def valid_reg(rng, max_parties=3, max_bits=3, max_ops=12):
     insts = []
     written = []
     pos = 0
-    for p, n in enumerate(ir):
-        for k in range(n):
+    if rng.random() < 0.3:
+        # validate() only asks an Input instruction at position i to write register i and to name an
+        # existing input bit: the loaded bits may be a subset of the declared ones, repeated, in any
+        # order, and max_reg_count may be smaller than the number of declared input bits
+        pairs = [(p, k) for p, n in enumerate(ir) for k in range(n)]
+        for _ in range(rng.randint(1, len(pairs) + 1)):
+            p, k = rng.choice(pairs)
             insts.append((pos, ("i", p, k)))
             written.append(pos)
             pos += 1
-    mx = pos + rng.randint(0, 4)
+        mx = pos + rng.choice([0, 0, 1, 2])
+    else:
+        for p, n in enumerate(ir):
+            for k in range(n):
+                insts.append((pos, ("i", p, k)))
+                written.append(pos)
+                pos += 1
+        mx = pos + rng.randint(0, 4)
     ands = 0
     for _ in range(rng.randint(0, max_ops)):
         kind = rng.choice("xxaan")
